@@ -470,7 +470,7 @@ theorem C02_block_stage_fenced (h : Nat) (tables : Bool) (xc : BlockExt.XCfg) {t
     (ho : NoCtlF.OwnBlock h text) {root : Node} {log : Block.Refs}
     (hr : BlockExt.parseDocumentXT tables xc tab text = some (root, log)) :
     root.Forall (BlkX.XInv Blk.okc Blk.okc (NoPair NoCtl.STX 'k')) ∧ BlkX.LogC Blk.okc (Blk.AllC Blk.okc) log :=
-  letI : NoCtlF.HtmlBound := ⟨h, false⟩
+  letI : NoCtlF.HtmlBound := ⟨h, false, false⟩
   NoCtlXF.XT.block_stage_own_q tables xc htab ho hr
 
 /-- **`RawHtmlPostprocessor.run` terminates on EVERY text** when the stash entries hold no STX and begin with `&` or
@@ -682,7 +682,7 @@ theorem C02_block_stage_fenced_tokens (h : Nat) (tables : Bool) (xc : BlockExt.X
     (hr : BlockExt.parseDocumentXT tables xc tab text = some (root, log)) :
     root.Forall (BlkX.XInv Blk.okc Blk.okc (fun s => TokFull.SOk s = true)) ∧
       BlkX.LogC Blk.okc (Blk.AllC Blk.okc) log :=
-  letI : NoCtlF.HtmlBound := ⟨h, false⟩
+  letI : NoCtlF.HtmlBound := ⟨h, false, false⟩
   NoCtlXF.XT.block_stage_own_s tables xc htab ho hr
 
 /-- **`Markdown.convert` never raises with fenced_code** (footnotes, abbr, attr_list, toc off; the rest on or off;
